@@ -334,14 +334,15 @@ def c05(res):
     def cfgs2(i, g):
         out = []
         for s in ("bfs", "dfs"):
+            blind = deep_dfs(g, s)
             for t in (1, 2, 4):
                 if g["poison"]:
-                    out.append(gg.base_cfg(s, t, light=True, market_log=True, watchdog_ms=60000))
+                    out.append(gg.base_cfg(s, t, light=True, market_log=True, watchdog_ms=60000, no_visitor=blind))
                     # ... also when the caller waits with join_and_report instead of join
-                    out.append(gg.base_cfg(s, t, light=True, watchdog_ms=60000, join_and_report=True))
+                    out.append(gg.base_cfg(s, t, light=True, watchdog_ms=60000, join_and_report=True, no_visitor=blind))
                 else:
-                    out.append(gg.base_cfg(s, t, light=True, market_log=True, watchdog_ms=60000, finish=dict(variant="Any", names=[])))
-                    out.append(gg.base_cfg(s, t, light=True, market_log=True, watchdog_ms=60000, target_states=2000))
+                    out.append(gg.base_cfg(s, t, light=True, market_log=True, watchdog_ms=60000, finish=dict(variant="Any", names=[]), no_visitor=blind))
+                    out.append(gg.base_cfg(s, t, light=True, market_log=True, watchdog_ms=60000, target_states=2000, no_visitor=blind))
         return out
     runs2, cov3 = checker_runs(res, "C05", g2, cfgs2, ["joined", "edges", "subset", "once", "stop_reason"], wd, "stop")
     # a panic in model code must surface from join (not hang, not vanish)
